@@ -30,8 +30,8 @@ fn ref_distance(a: &[u8; 20], b: &[u8; 20]) -> u8 {
 #[kani::proof]
 #[kani::unwind(162)]
 fn c19_o1_distance_reference() {
-    let a: [u8; 20] = kani::any();
-    let b: [u8; 20] = kani::any();
+    let a: [u8; 20] = kani::env();
+    let b: [u8; 20] = kani::env();
     let (ia, ib) = (Id::from(a), Id::from(b));
     let d = ia.distance(&ib);
     assert!(d == ref_distance(&a, &b), "C19.O1 distance equals 160 - common prefix length");
@@ -53,9 +53,9 @@ fn c19_o1_distance_reference() {
 #[kani::proof]
 #[kani::unwind(21)]
 fn c19_o1b_distance_xor_order() {
-    let a: [u8; 20] = kani::any();
-    let b: [u8; 20] = kani::any();
-    let t: [u8; 20] = kani::any();
+    let a: [u8; 20] = kani::env();
+    let b: [u8; 20] = kani::env();
+    let t: [u8; 20] = kani::env();
     let (ia, ib, it) = (Id::from(a), Id::from(b), Id::from(t));
     let (da, db) = (ia.distance(&it), ib.distance(&it));
     let (xa, xb) = (ia.xor(&it), ib.xor(&it));
@@ -80,7 +80,7 @@ fn c19_o1b_distance_xor_order() {
 #[kani::proof]
 #[kani::unwind(24)]
 fn c19_o2_from_bytes_len() {
-    let buf: [u8; 22] = kani::any();
+    let buf: [u8; 22] = kani::env();
     let len: usize = kani::any();
     kani::assume(len <= 22);
     let r = Id::from_bytes(&buf[..len]);
@@ -110,7 +110,7 @@ fn c19_o2_from_bytes_len() {
 fn c19_o3_bep42_valid_matches_reference() {
     let ipn: u32 = kani::any();
     let ip = Ipv4Addr::from(ipn);
-    let idb: [u8; 20] = kani::any();
+    let idb: [u8; 20] = kani::env();
     let id = Id::from(idb);
     let o = ip.octets();
     // exemptions written out independently of std's helpers
@@ -141,7 +141,7 @@ fn c19_o3_bep42_valid_matches_reference() {
 fn c19_o4_from_ipv4_and_r_valid() {
     let ipn: u32 = kani::any();
     let ip = Ipv4Addr::from(ipn);
-    let bytes: [u8; 20] = kani::any();
+    let bytes: [u8; 20] = kani::env();
     let r: u8 = kani::any();
     let id = from_ipv4_and_r(bytes, ip, r);
     assert!(id.is_valid_for_ip(ip), "C19.O4 from_ipv4 id is valid for its ip");
@@ -203,7 +203,7 @@ fn hexval(c: u8) -> Option<u8> {
 #[kani::stub(alloc::fmt::format, crate::verif_env::fmt_stub)]
 #[kani::unwind(8)]
 fn c19_o5a_from_str_total_short() {
-    let b: [u8; 6] = kani::any();
+    let b: [u8; 6] = kani::env();
     let len: usize = kani::any();
     kani::assume(len <= 6);
     if let Ok(s) = std::str::from_utf8(&b[..len]) {
@@ -280,7 +280,7 @@ fn c19_o5b_from_str_ascii40_one_pair() {
 #[kani::stub(alloc::fmt::format, crate::verif_env::fmt_stub)]
 #[kani::unwind(22)]
 fn c19_o5d_from_str_ascii40_full() {
-    let b: [u8; 40] = kani::any();
+    let b: [u8; 40] = kani::env();
     let mut i = 0usize;
     while i < 20 {
         kani::assume(b[2 * i] < 0x80 && b[2 * i + 1] < 0x80);
@@ -322,7 +322,7 @@ fn c19_o5d_from_str_ascii40_full() {
 #[kani::stub(alloc::fmt::format, crate::verif_env::fmt_stub)]
 #[kani::unwind(44)]
 fn c19_o5c_from_str_wrong_len() {
-    let b: [u8; 42] = kani::any();
+    let b: [u8; 42] = kani::env();
     let mut i = 0usize;
     while i < 42 {
         kani::assume(b[i] < 0x80);
